@@ -21,7 +21,7 @@ props = {
  "C17": ("data", "property-based testing (proptest): generated key-value operations and answers through three APIs, typed core and bridge", "§7 C17"),
  "C18": ("data", "property-based testing (proptest): generated interleavings of timer actions vs a per-timer automaton; process-wide id uniqueness", "§7 C18"),
  "C19": ("data", "property-based testing (proptest): boundary-weighted conversions vs i128/u128 arithmetic", "§7 C19"),
- "C20": ("cli", "metamorphic property-based testing: renumbering / reordering of rustdoc descriptions (random, dense, reversed, shifted, targeted same-kind id collisions across crates); closedness; declaration order; traced schema", "§7 C20, §16.3"),
+ "C20": ("cli", "metamorphic property-based testing: renumbering / reordering of rustdoc descriptions (random, dense, reversed, shifted, targeted same-kind id collisions across crates); generated graphs of synthetic crates (reachability oracle for closedness and crate loading); closedness; declaration order; traced schema", "§7 C20, §16.3, §16.7"),
 }
 checks = []
 for pid, (engine, tech, ref) in props.items():
@@ -54,7 +54,7 @@ manifest = {
     ],
     "checks": checks,
     "not_applicable": [],
-    "notes": "Known findings (recorded, not repaired) and fixed findings (repaired by fix: commits in /repo) are listed in /verif/known_findings.txt; DESIGN.md §14 is the build-phase record; seeded/ holds 160 independently written breaking changes (four rounds; a fifth in seeded/*-m9) with RESULTS.md / RESULTS-round4.md (which check reports which).",
+    "notes": "Known findings (recorded, not repaired) and fixed findings (repaired by fix: commits in /repo) are listed in /verif/known_findings.txt; DESIGN.md §14 is the build-phase record; seeded/ holds 200 independently written breaking changes (six rounds) with RESULTS.md (rounds 1-3) and RESULTS-round4/5/6.md (which check reports which); DESIGN.md §16 is the record of the third session.",
 }
 json.dump(manifest, open("MANIFEST.json", "w"), indent=1)
 print("written", len(checks), "checks")
